@@ -300,6 +300,8 @@ func DefaultConsFamilies(quick bool, byzantine bool) ConsFamilies {
 		// a validator that sleeps and returns with arbitrarily stale knowledge, with and without an initial fork
 		f.Sleepers = []SleeperCfg{
 			{W: WV(1, 1, 1, 1), Epoch: 1, MinSleep: 3, MaxSleep: 5, Tail: 5, Forks: true, Rots: 1},
+			// split votes on the first frame (one validator misses another's first event) + a sleeper
+			{W: WV(1, 1, 1, 1), Epoch: 1, MinSleep: 2, MaxSleep: 4, Tail: 4, DropInFirstRound: true, Rots: 1},
 		}
 		if byzantine {
 			all(WV(1, 1, 1), 5, 2, false)
@@ -331,6 +333,11 @@ func DefaultConsFamilies(quick bool, byzantine bool) ConsFamilies {
 			{W: WV(1, 1, 1, 1), Epoch: 1, R: 12, Dev: 2, Lags: true, MaxLag: 4, DevRounds: 5, LagRounds: 3, RequireLag: true, DropOnly: true, Sequential: true},
 			{W: WV(1, 1, 1, 1), Epoch: 1, R: 12, Dev: 2, Lags: true, MaxLag: 4, DevRounds: 5, LagRounds: 3, RequireLag: true, DropOnly: true},
 			{W: WV(1, 1, 1, 1), Epoch: 1, R: 11, Dev: 3, Lags: true, MaxLag: 3, DevRounds: 4, LagRounds: 2, RequireLag: true, DropOnly: true, Sequential: true},
+		}
+		f.Sleepers = []SleeperCfg{
+			{W: WV(1, 1, 1, 1), Epoch: 1, MinSleep: 3, MaxSleep: 6, Tail: 5, Forks: true},
+			{W: WV(1, 1, 1, 1), Epoch: 1, MinSleep: 2, MaxSleep: 5, Tail: 5, DropInFirstRound: true},
+			{W: WV(2, 1, 1, 1), Epoch: 1, MinSleep: 2, MaxSleep: 4, Tail: 4, DropInFirstRound: true, Rots: 2},
 		}
 		if byzantine {
 			all(WV(1, 1, 1), 6, 2, false)
